@@ -1,5 +1,6 @@
 package ledgerstore
 
 var zzRegistry = map[string]func(int){
-	"ZZ_C20": ZZ_C20,
+	"ZZ_C17Cursor": ZZ_C17Cursor,
+	"ZZ_C20":       ZZ_C20,
 }
